@@ -19,6 +19,7 @@ import (
 	"os"
 	"sort"
 	"strconv"
+	"strings"
 	"sync"
 	"testing"
 	"testing/synctest"
@@ -35,10 +36,20 @@ import (
 type procKey struct{}
 
 type xsched struct {
-	mu    sync.Mutex
-	gates map[string]chan struct{}
-	at    map[string]string
-	pass  bool
+	mu     sync.Mutex
+	gates  map[string]chan struct{}
+	at     map[string]string
+	enters map[string]int // per process: how many times it has entered setLocalHead
+	pass   bool
+}
+
+// parkedOutsideMutex: proc is parked at a gate of Head()'s first setLocalHead (or of its head request), which runs
+// before Head() takes the incoming-head mutex.
+func (s *xsched) parkedOutsideMutex(proc string) bool {
+	s.mu.Lock()
+	defer s.mu.Unlock()
+	_, ok := s.gates[proc]
+	return ok && s.enters[proc] <= 1
 }
 
 func (s *xsched) hook(ctx context.Context, point string, _ ...uint64) {
@@ -49,6 +60,12 @@ func (s *xsched) hook(ctx context.Context, point string, _ ...uint64) {
 		}
 	}
 	s.mu.Lock()
+	if point == "setLocalHead.enter" {
+		if s.enters == nil {
+			s.enters = map[string]int{}
+		}
+		s.enters[proc]++
+	}
 	if s.pass {
 		s.mu.Unlock()
 		return
@@ -140,6 +157,15 @@ func syncExploreOnce(t *testing.T, id int, rnd *rand.Rand) (evs []SyncEv, cfg st
 			// a valid sibling of a header the node knows already (same height, same parent, different content):
 			// known, must be refused
 			script = append(script, offer{"fork", 2 + rnd.Intn(top-1)})
+		case r == 9 && top > 1 && rnd.Intn(2) == 0:
+			// a header just above the highest offered head that is dated a few seconds BEFORE it (time must not go
+			// backwards along the chain), or — when there is room — a header below it that is dated AFTER every
+			// header of the chain (a known height stays known whatever its timestamp says)
+			if top > 2 && rnd.Intn(2) == 0 {
+				script = append(script, offer{"lowerLate", 2 + rnd.Intn(top-2)})
+			} else {
+				script = append(script, offer{"olderAbove", top + 1})
+			}
 		default:
 			script = append(script, offer{"wrongchain", top + 1 + rnd.Intn(2)})
 		}
@@ -162,7 +188,7 @@ func syncExploreOnce(t *testing.T, id int, rnd *rand.Rand) (evs []SyncEv, cfg st
 		}
 		n := newNode(t, chain, 1, 1+id%3, hsync.WithBlockTime(time.Hour))
 		storeWrap = nil
-		sc := &xsched{gates: map[string]chan struct{}{}, at: map[string]string{}}
+		sc := &xsched{gates: map[string]chan struct{}{}, at: map[string]string{}, enters: map[string]int{}}
 		var learnedMu sync.Mutex
 		learned := 1 // highest valid head offered so far (by gossip or as a Head() answer)
 		n.get.headFn = func(_ gcall, trusted *vh.Header) (*vh.Header, error) {
@@ -200,7 +226,7 @@ func syncExploreOnce(t *testing.T, id int, rnd *rand.Rand) (evs []SyncEv, cfg st
 			res  string
 		}
 		var done []verdict
-		gossipBusy := false
+		gossipBusy, headBusy, headProc := false, false, ""
 		var lastBad *vh.Header
 		headRet := 0
 		nextOffer, headsLeft := 0, nHead
@@ -249,16 +275,24 @@ func syncExploreOnce(t *testing.T, id int, rnd *rand.Rand) (evs []SyncEv, cfg st
 		for ; step < 400; step++ {
 			type act struct{ kind, proc string }
 			var acts []act
+			mu.Lock()
+			gBusy, hBusy, hProc := gossipBusy, headBusy, headProc
+			mu.Unlock()
+			// Head() applies the head it learned outside the incoming-head mutex and takes the mutex only afterwards: while
+			// its caller is parked in that first part a gossip delivery may run (and a Head() call may start while a
+			// delivery is parked: it parks at its own first gate).  What must not happen in a bubble is a goroutine waiting
+			// for the mutex: the Head() caller is not released while a delivery is in flight.
+			hOutside := hBusy && sc.parkedOutsideMutex(hProc)
 			for _, p := range sc.parked() {
+				if gBusy && strings.HasPrefix(p, "H") {
+					continue
+				}
 				acts = append(acts, act{"release", p}, act{"release", p})
 			}
-			mu.Lock()
-			busy := gossipBusy
-			mu.Unlock()
-			if !busy && nextOffer < len(script) {
+			if !gBusy && nextOffer < len(script) && (!hBusy || hOutside) {
 				acts = append(acts, act{"gossip", ""})
 			}
-			if !busy && headsLeft > 0 { // Head() takes the incoming-head mutex too (it re-applies the head it got)
+			if !hBusy && headsLeft > 0 {
 				acts = append(acts, act{"head", ""})
 			}
 			if len(acts) == 0 {
@@ -286,6 +320,12 @@ func syncExploreOnce(t *testing.T, id int, rnd *rand.Rand) (evs []SyncEv, cfg st
 					hdr.Chain = "otherchain"
 				case "fork":
 					hdr = chain.Fork(uint64(o.h), uint64(500+nextOffer)).At(uint64(o.h))
+				case "lowerLate":
+					hdr = chain.At(uint64(o.h)).Clone()
+					hdr.T = chain.At(uint64(N)).T + int64(time.Second)
+				case "olderAbove":
+					hdr = chain.At(uint64(o.h)).Clone()
+					hdr.T = chain.At(uint64(o.h-1)).T - int64(5*time.Second)
 				}
 				mu.Lock()
 				gossipBusy = true
@@ -294,7 +334,7 @@ func syncExploreOnce(t *testing.T, id int, rnd *rand.Rand) (evs []SyncEv, cfg st
 				}
 				mu.Unlock()
 				okind := o.kind
-				if okind == "forgedSame" {
+				if okind == "forgedSame" || okind == "lowerLate" || okind == "olderAbove" {
 					okind = "forged"
 				}
 				oh := o.h
@@ -314,14 +354,14 @@ func syncExploreOnce(t *testing.T, id int, rnd *rand.Rand) (evs []SyncEv, cfg st
 				k := headsLeft
 				headsLeft--
 				mu.Lock()
-				gossipBusy = true
+				headBusy, headProc = true, fmt.Sprintf("H%d", k)
 				mu.Unlock()
 				go func() {
 					ctx, cancel := context.WithTimeout(context.WithValue(bg, procKey{}, fmt.Sprintf("H%d", k)), time.Hour)
 					defer cancel()
 					defer func() {
 						mu.Lock()
-						gossipBusy = false
+						headBusy = false
 						mu.Unlock()
 					}()
 					if hd, err := n.sy.Head(ctx); err == nil && hd != nil {
